@@ -157,8 +157,12 @@ Fixpoint all_pairs (r : nat -> nat -> bool) (l : list nat) : bool :=
   | p :: rest => forallb (r p) rest && all_pairs r rest
   end.
 
+(* some word is accepted from q: q is told apart from the empty language *)
 Definition live (m : dfa) (q : nat) : bool :=
-  match isempty_m (with_init m q) with Ok false => true | _ => false end.
+  match dfa_diff (with_init m q) (empty_m (d_syms m)) with
+  | Ok (Some _) => true
+  | _ => false
+  end.
 
 (* every state accessible, states pairwise distinguishable, and - for a DFA flagged partial
    with more than one state - no dead state *)
